@@ -103,7 +103,15 @@ def run(ctx):
         rc, out = sh([explorer, ops], env=ctx.env, timeout=3000)
     ctx.log(out.strip().split("\n")[-1] if out.strip() else "explorer silent")
     if rc != 0:
+        # a crash of the explorer IS the property failing (double free / use after free): name the history
+        last = ""
+        if os.path.exists(ops):
+            for line in open(ops, errors="replace"):
+                if line.startswith("spec "):
+                    last = line.rstrip("\n").split(" ", 2)[2]
         ctx.oblige("run:explorer", False, out[-800:])
+        jf.violation("judge", "the explorer process died (signal/abort) in history `%s`" % last,
+                     {"case": "crash", "spec": last, "output": out[-2000:]}, fingerprint={"clause": "crash", "op": "crash"})
         jf.flush()
         return ctx.finish()
     specs, threads, alloc, kinds = {}, [], None, {}
